@@ -54,6 +54,7 @@ type SceneOpts struct {
 	UserFunds    string
 	EdenPerYear  string // masterchef LP incentive (0 = none)
 	BurnEpoch    string // burner epoch identifier ("" = the default, which matches no epoch)
+	NoMetadata   []string // assets the scene registers NO bank denom metadata for (the burner must never touch them)
 	Registry     bool   // project the parameter registry (extended specification) at every observation point
 }
 
@@ -108,6 +109,14 @@ func (c *Chain) SetupScene(o SceneOpts) {
 	}
 	// bank denom metadata as on a live chain (the burner only burns denoms that have metadata)
 	for _, as := range assets {
+		skip := false
+		for _, nm := range o.NoMetadata {
+			skip = skip || nm == as.Denom
+		}
+		if skip {
+			continue
+		}
+		c.Listed = append(c.Listed, as.Denom)
 		a.BankKeeper.SetDenomMetaData(ctx, banktypes.Metadata{Base: as.Denom, Display: as.Display, Name: as.Display, Symbol: as.Display,
 			DenomUnits: []*banktypes.DenomUnit{{Denom: as.Denom, Exponent: 0}, {Denom: as.Display, Exponent: uint32(as.Dec)}}})
 	}
